@@ -130,6 +130,7 @@ class ParsedStatement:
                 if s not in self.slots:
                     self.slots.append(s)
         self._orig = [(leaf, str(leaf.__dict__["_raw"])) for leaf in self._leaves(seg)]
+        self._const_cache = {}
 
     @staticmethod
     def _leaves(seg):
@@ -166,24 +167,35 @@ class ParsedStatement:
                     cs += SymStr.const(resolve(slot, k, leaf, p)).cs
             return SymStr(cs)
 
+        consts = self._const_cache
+
         def rec(seg):
+            """-> (text, upper-cased text); upper of an inner segment is the concatenation of its children's"""
             if not seg.segments:
-                s = leaf_text(seg)
+                hit = consts.get(id(seg)) if anycase_tag is None else None
+                if hit is None:
+                    s = leaf_text(seg)
+                    su = s.upper()
+                    if anycase_tag is None and s.concrete() and not PLACEHOLDER.search(orig[id(seg)]):
+                        consts[id(seg)] = (s, su)
+                else:
+                    s, su = hit
                 seg.__dict__["_raw"] = s
-                seg.__dict__["_raw_upper"] = s.upper()
-                for k in ("raw_normalized",):
-                    seg.__dict__.pop(k, None)
-                return s
-            cs = []
+                seg.__dict__["_raw_upper"] = su
+                seg.__dict__.pop("raw_normalized", None)
+                return s, su
+            cs, us = [], []
             for c in seg.segments:
-                cs += rec(c).cs
-            s = SymStr(cs)
+                a, b = rec(c)
+                cs += a.cs
+                us += b.cs
+            s, su = SymStr(cs), SymStr(us)
             seg._recalculate_caches()
             seg.__dict__["raw"] = s
-            seg.__dict__["raw_upper"] = s.upper()
-            return s
+            seg.__dict__["raw_upper"] = su
+            return s, su
 
-        return rec(self.seg)
+        return rec(self.seg)[0]
 
     def render(self, concrete_names, resolve_text=None):
         """concrete SQL text of this statement for a naming (for replay on the unmodified library)"""
